@@ -174,6 +174,21 @@ def run_one(member, sizes, inputs, f_eval, f_asm, f_cmp, props, cap):
             if proj(c) not in supp_p:
                 fails.append(dict(prop="C03", what=f"phantom coordinate {c} stored (levels {dims_of_levels}) without structural support"))
                 break
+    if "C05" in props and "C04" not in props:
+        # the assemble and compute kernels are generated kernels too: run assemble, then compute twice on its output
+        st2, tids2 = K.fresh_state(member, sizes, inputs)
+        before2 = K.inputs_snapshot(st2)
+        r1 = K.run_function(f_asm, st2)
+        if r1[0] != "return" or r1[1] != S.VI(0):
+            fails.append(dict(prop="C05", what=f"assemble: {r1[1] if r1[0] == 'err' else r1}"))
+        else:
+            for rerun in range(2):
+                r2 = K.run_function(f_cmp, st2)
+                if r2[0] != "return" or r2[1] != S.VI(0):
+                    fails.append(dict(prop="C05", what=f"compute (run {rerun + 1}, on the arrays assemble handed back): {r2[1] if r2[0] == 'err' else r2}"))
+                    break
+            if K.inputs_snapshot(st2) != before2:
+                fails.append(dict(prop="C05", what="assemble/compute modified an input array"))
     if "C04" in props:
         st2, tids2 = K.fresh_state(member, sizes, inputs)
         r1 = K.run_function(f_asm, st2)
